@@ -18,7 +18,7 @@ import JinjaV.Model.Lex
 namespace JinjaV.Literal
 open JinjaV.Lex
 
-abbrev CP := Nat
+-- code points are `Nat` (a Python `str` may hold lone surrogates, a Lean `Char` cannot)
 
 -- integers ----------------------------------------------------------------------------------------------
 
@@ -97,27 +97,27 @@ def floatValue (tok : Str) : Option Dec := floatLit (stripUnderscores tok)
 -- strings -----------------------------------------------------------------------------------------------
 
 /-- `_normalize_newlines` with the default `newline_sequence = "\n"` (lexer.py:602) -/
-def normNl : List CP → List CP
+def normNl : List Nat → List Nat
   | [] => []
   | 13 :: 10 :: r => 10 :: normNl r
   | 13 :: r => 10 :: normNl r
   | c :: r => c :: normNl r
 
-def hexDigitCP (d : Nat) : CP := if d < 10 then 48 + d else 87 + d
+def hexDigitCP (d : Nat) : Nat := if d < 10 then 48 + d else 87 + d
 
 /-- `w` lower-case hex digits of `n`, most significant first (`n < 16 ^ w`) -/
-def hexN : Nat → Nat → List CP
+def hexN : Nat → Nat → List Nat
   | 0, _ => []
   | w + 1, n => hexDigitCP (n / 16 ^ w) :: hexN w (n % 16 ^ w)
 
 /-- `str.encode("ascii", "backslashreplace")` for one code point: `\xhh`, `\uhhhh`, `\Uhhhhhhhh` -/
-def enc1 (c : CP) : List CP :=
+def enc1 (c : Nat) : List Nat :=
   if c < 128 then [c]
   else if c < 256 then 92 :: 120 :: hexN 2 c
   else if c < 65536 then 92 :: 117 :: hexN 4 c
   else 92 :: 85 :: hexN 8 c
 
-def encodeAscii (s : List CP) : List CP := s.flatMap enc1
+def encodeAscii (s : List Nat) : List Nat := s.flatMap enc1
 
 inductive DErr where
   | syntax      -- the codec raises UnicodeDecodeError; `wrap` turns it into TemplateSyntaxError
@@ -132,20 +132,20 @@ inductive DState where
   | hex (left acc : Nat)        -- inside `\x`, `\u`, `\U`: exactly `left` further hex digits
   deriving Repr, DecidableEq
 
-def hexValCP (c : CP) : Option Nat :=
+def hexValCP (c : Nat) : Option Nat :=
   if 48 ≤ c && c ≤ 57 then some (c - 48)
   else if 97 ≤ c && c ≤ 102 then some (c - 87)
   else if 65 ≤ c && c ≤ 70 then some (c - 55)
   else none
 
-def isOctCP (c : CP) : Bool := 48 ≤ c && c ≤ 55
+def isOctCP (c : Nat) : Bool := 48 ≤ c && c ≤ 55
 
 /-- a byte in the plain state -/
-def stepPlain (c : CP) : List CP × DState := if c == 92 then ([], .esc) else ([c], .plain)
+def stepPlain (c : Nat) : List Nat × DState := if c == 92 then ([], .esc) else ([c], .plain)
 
 /-- the byte after a backslash (CPython `_PyUnicode_DecodeUnicodeEscapeInternal`): `\<newline>` is dropped,
     the single-character escapes, octal, `\x \u \U`, `\N` (declined), anything else keeps both characters -/
-def stepEsc (c : CP) : Except DErr (List CP × DState) :=
+def stepEsc (c : Nat) : Except DErr (List Nat × DState) :=
   if c == 10 then .ok ([], .plain)
   else if c == 92 then .ok ([92], .plain)
   else if c == 39 then .ok ([39], .plain)
@@ -164,7 +164,7 @@ def stepEsc (c : CP) : Except DErr (List CP × DState) :=
   else if c == 78 then .error .oom              -- \N{...}
   else .ok ([92, c], .plain)
 
-def step : DState → CP → Except DErr (List CP × DState)
+def step : DState → Nat → Except DErr (List Nat × DState)
   | .plain, c => .ok (stepPlain c)
   | .esc, c => stepEsc c
   | .oct left acc, c =>
@@ -179,14 +179,14 @@ def step : DState → CP → Except DErr (List CP × DState)
                         else .ok ([acc * 16 + d], .plain))
       else .ok ([], .hex (left - 1) (acc * 16 + d))
 
-def finish : DState → Except DErr (List CP)
+def finish : DState → Except DErr (List Nat)
   | .plain => .ok []
   | .esc => .error .syntax                    -- "\ at end of string"
   | .oct _ acc => .ok [acc]
   | .hex _ _ => .error .syntax
 
 /-- `bytes.decode("unicode-escape")` on ASCII input, started in state `st` -/
-def decodeFrom : DState → List CP → Except DErr (List CP)
+def decodeFrom : DState → List Nat → Except DErr (List Nat)
   | st, [] => finish st
   | st, c :: r =>
     match step st c with
@@ -196,20 +196,20 @@ def decodeFrom : DState → List CP → Except DErr (List CP)
       | .error e => .error e
       | .ok v => .ok (out ++ v)
 
-def decodeEscapes (s : List CP) : Except DErr (List CP) := decodeFrom .plain s
+def decodeEscapes (s : List Nat) : Except DErr (List Nat) := decodeFrom .plain s
 
 /-- what `wrap` does with the text between the quotes (lexer.py:652-656) -/
-def unescapeBody (body : List CP) : Except DErr (List CP) :=
+def unescapeBody (body : List Nat) : Except DErr (List Nat) :=
   decodeEscapes (encodeAscii (normNl body))
 
 /-- value of a `string` token: `value_str[1:-1]` unescaped -/
-def stringValue (tok : Str) : Except DErr (List CP) :=
+def stringValue (tok : Str) : Except DErr (List Nat) :=
   unescapeBody (((tok.drop 1).dropLast).map Char.toNat)
 
 -- repr-style and alternative spellings of a string value -----------------------------------------------
 
 /-- `\ooo` -/
-def octN (n : Nat) : List CP := [48 + n / 64 % 8, 48 + n / 8 % 8, 48 + n % 8]
+def octN (n : Nat) : List Nat := [48 + n / 64 % 8, 48 + n / 8 % 8, 48 + n % 8]
 
 /-- how one code point is written inside the quotes -/
 inductive Style where
@@ -221,14 +221,14 @@ inductive Style where
   | u8         -- `\Uhhhhhhhh`
   deriving Repr, DecidableEq
 
-def simpleLetter? (c : CP) : Option CP :=
+def simpleLetter? (c : Nat) : Option Nat :=
   if c == 92 then some 92 else if c == 39 then some 39 else if c == 34 then some 34
   else if c == 7 then some 97 else if c == 8 then some 98 else if c == 12 then some 102
   else if c == 10 then some 110 else if c == 13 then some 114 else if c == 9 then some 116
   else if c == 11 then some 118 else none
 
 /-- the style can write code point `c` inside quotes `q` -/
-def Style.ok (q : CP) (c : CP) : Style → Bool
+def Style.ok (q : Nat) (c : Nat) : Style → Bool
   | .raw => c != 92 && c != q && c != 13 && c < 0x110000
   | .simple => (simpleLetter? c).isSome
   | .hex2 => c < 256
@@ -236,7 +236,7 @@ def Style.ok (q : CP) (c : CP) : Style → Bool
   | .u4 => c < 65536
   | .u8 => c < 0x110000
 
-def spell1 (c : CP) : Style → List CP
+def spell1 (c : Nat) : Style → List Nat
   | .raw => [c]
   | .simple => match simpleLetter? c with | some l => [92, l] | none => [c]
   | .hex2 => 92 :: 120 :: hexN 2 c
@@ -245,13 +245,19 @@ def spell1 (c : CP) : Style → List CP
   | .u8 => 92 :: 85 :: hexN 8 c
 
 /-- the text between the quotes for value `v` written with the styles `sts` (one per code point) -/
-def spellBody : List Style → List CP → List CP
+def spellBody : List Style → List Nat → List Nat
   | st :: sts, c :: v => spell1 c st ++ spellBody sts v
   | _, _ => []
 
+/-- one applicable style per code point -/
+def stylesOk (q : Nat) : List Style → List Nat → Bool
+  | [], [] => true
+  | st :: sts, c :: v => st.ok q c && stylesOk q sts v
+  | _, _ => false
+
 /-- the style `repr()` uses for a code point inside quotes `q` (CPython `unicode_repr`); `printable` is
     `str.isprintable` for non-ASCII code points (a fact of the Unicode database: a parameter) -/
-def reprStyle (printable : CP → Bool) (q : CP) (c : CP) : Style :=
+def reprStyle (printable : Nat → Bool) (q : Nat) (c : Nat) : Style :=
   if c == 92 || c == q then .simple
   else if c == 9 || c == 10 || c == 13 then .simple
   else if c < 32 || c == 127 then .hex2
@@ -262,28 +268,28 @@ def reprStyle (printable : CP → Bool) (q : CP) (c : CP) : Style :=
   else .u8
 
 /-- the text `repr(v)` puts between quotes `q` -/
-def reprBody (printable : CP → Bool) (q : CP) (v : List CP) : List CP :=
+def reprBody (printable : Nat → Bool) (q : Nat) (v : List Nat) : List Nat :=
   spellBody (v.map (reprStyle printable q)) v
 
 /-- a token text from a quote character and the code points between the quotes -/
-def quoted (q : Char) (body : List CP) : Str := q :: body.map Char.ofNat ++ [q]
+def quoted (q : Char) (body : List Nat) : Str := q :: body.map Char.ofNat ++ [q]
 
 -- adjacent string literals (parser.py:658-665) -----------------------------------------------------------
 
 /-- the converted tokens the parser sees, as far as literals are concerned -/
 inductive PTok where
-  | string (v : List CP)
+  | string (v : List Nat)
   | other (kind : TK) (text : Str)
   deriving Repr, DecidableEq
 
 /-- `buf = [token.value]; while stream.current.type == "string": buf.append(...)`: the values of the maximal
     run of string tokens at the head, and the remaining tokens -/
-def stringRun : List PTok → List (List CP) × List PTok
+def stringRun : List PTok → List (List Nat) × List PTok
   | .string v :: r => (v :: (stringRun r).1, (stringRun r).2)
   | ts => ([], ts)
 
 /-- the `string` branch of `parse_primary`: `Const("".join(buf))` -/
-def primaryString (ts : List PTok) : Option (List CP × List PTok) :=
+def primaryString (ts : List PTok) : Option (List Nat × List PTok) :=
   match ts with
   | .string _ :: _ => some ((stringRun ts).1.flatten, (stringRun ts).2)
   | _ => none
@@ -336,7 +342,7 @@ def convertStrings : List Tok → Except DErr (List PTok)
       else .ok (.other t.kind t.text :: rs)
 
 /-- the spelling consists of one or more adjacent string literals and nothing else: the value of the `Const` -/
-def stringsValue (sp : Str) : Option (Except DErr (List CP)) :=
+def stringsValue (sp : Str) : Option (Except DErr (List Nat)) :=
   match exprTokens sp with
   | some toks =>
     if toks.isEmpty || !toks.all (fun t => t.kind == .string) then none else
